@@ -54,11 +54,19 @@ def main(tier):
             why_ = sorted({(r.get("msg") or "")[:160] for r in drv if r.get("exit") == "undecided"}) or ["driver analysis did not run"]
             run.extra.setdefault("undecided_clauses", []).append({"clause": "driver", "profile": prof, "reasons": why_})
             print("NOTE: C14 clause (7) (driver step tables, %s) is undecided on this tree: %s - falling back to the structural clauses (1)-(3)" % (prof, why_[:2]))
+        dsetup = next((r for r in drv if r.get("step") == "driver-setup" and r.get("exit") == "return"), None)
+
+        def dloc(r):
+            if not dsetup:
+                return None
+            k = dsetup["dispatch"] if r.get("step", "").startswith("dispatch") else dsetup["fmts"].get(r.get("trait"))
+            f_ = prog.fns.get(k) if k else None
+            return prog.loc(f_["span"]) if f_ else None
         for r in drv:
             if r.get("ok") is False:
                 why = re.sub(r"\bn\d+\b", "n_", (r.get("why") or ["differs from the reference"])[0])
                 run.ob("driver", "%s/%s (%s): as the reference driver" % (r["step"], prof, r.get("edge") or r.get("trait") or ""), False,
-                       key="driver|%s|%s" % (r["step"], why[:160]), detail=r, nontrivial=("driver", r["step"], r.get("edge"), r.get("trait")))
+                       key="driver|%s|%s" % (r["step"], why[:160]), detail=r, loc=dloc(r), nontrivial=("driver", r["step"], r.get("edge"), r.get("trait")))
             elif r.get("exit") == "panic":
                 run.ob("driver", "%s/%s does not panic" % (r["step"], prof), False, key="driver|%s|may panic: %s" % (r["step"], e2props.panic_kind(r.get("msg"))), detail=r)
             elif r.get("ok") is True and driver_decided:
@@ -180,11 +188,19 @@ def main(tier):
         pan = [r for r in recs if r.get("exit") == "panic"]
         okc = len([r for r in recs if r.get("ok") is True])
         setup = next((r for r in recs if r.get("step") == "setup" and r.get("exit") == "return"), None)
+        def sloc(r):
+            if not setup:
+                return None
+            k = {"open": setup["found"]["open"], "close": setup["found"]["close"], "write": setup["found"]["write_str"], "new": setup["found"]["new"]}.get(r.get("step"))
+            if r.get("step") == "write_char":
+                k = next((x for x in setup["found"].get("other_write_items") or [] if x.endswith("::write_char")), None)
+            f_ = prog.fns.get(k) if k else None
+            return prog.loc(f_["span"]) if f_ else None
         for r in bad:
             why = re.sub(r"\b([gtrsi])\d+\b", r"\1_", (r.get("why") or ["differs from the reference transducer"])[0])
             why = re.sub(r"\(entries .*\)$", "", why).strip()
             run.ob("steps", "%s/%s from (%s, %s): equals the reference transducer" % (r["step"], prof, r.get("line"), r.get("stack")), False,
-                   key="steps|%s|%s" % (r["step"], why[:160]), detail=r, nontrivial=("step", r["step"], r.get("line"), r.get("stack"), r.get("fragment")))
+                   key="steps|%s|%s" % (r["step"], why[:160]), detail=r, loc=sloc(r), nontrivial=("step", r["step"], r.get("line"), r.get("stack"), r.get("fragment")))
         for r in pan:
             run.ob("steps", "%s/%s from (%s, %s): does not panic" % (r["step"], prof, r.get("line"), r.get("stack")), False,
                    key="steps|%s|may panic: %s" % (r["step"], e2props.panic_kind(r.get("msg"))), detail=r)
